@@ -161,11 +161,21 @@ TIES = {
                              "source_decoder_init_is_model"]},
     # the generic integration's adapters (with the Adapter base class and the term classes of generic_sink.py), translated, simulate
     # the adapters as the model has them; hence the translated Decoder over the translated adapters against the model
+    # the term classes of the generic integration as one generated inductive type; their equality is the model's term_eqb
+    "generic_sink": {"sources": ["pyjelly/integrations/generic/generic_sink.py"], "gen": "GenericSinkGen", "tie": "GenericTerms", "needs": [],
+                     "theorems": ["source_term_eq_is_model"]},
     "generic_parse": {"sources": ["pyjelly/integrations/generic/parse.py", "pyjelly/integrations/generic/generic_sink.py", "pyjelly/parse/decode.py"],
                       "gen": "GenericParseGen", "tie": "GenericParseTie",
-                      "needs": ["lookup_enc", "lookup_dec", "options", "encode", "decode", "decoder_base", "decoder"],
+                      "needs": ["lookup_enc", "lookup_dec", "options", "encode", "decode", "decoder_base", "decoder", "generic_sink"],
                       "theorems": ["generic_decode_row_is_model", "generic_iter_rows_is_model", "generic_iter_rows_on_built_frame",
                                    "generic_decoder_init_is_model", "types_named_iff"]},
+    # the generic integration's term encoder (GenericSinkTermEncoder.encode_spo / encode_graph), translated: the premises sim_spo /
+    # sim_graph of the statement-level and Stream ties are PROVED for it, so those theorems hold for the generic integration outright
+    "generic_serialize": {"sources": ["pyjelly/integrations/generic/serialize.py", "pyjelly/integrations/generic/generic_sink.py", "pyjelly/serialize/encode.py"],
+                          "gen": "GenericSerializeGen", "tie": "GenericSerializeTie",
+                          "needs": ["lookup_enc", "lookup_dec", "options", "encode", "encode_stmt", "flows", "streams", "decode", "decoder_base", "generic_sink"],
+                          "theorems": ["gs_spo_fuel_tie", "generic_sim_spo", "generic_sim_graph", "generic_encode_triple_is_model", "generic_encode_quad_is_model",
+                                       "generic_stream_triple_is_model", "generic_stream_quad_is_model", "generic_stream_graph_is_model"]},
     # property C05 itself, about the translated writer and reader coupled as the wire couples them (no model in the statement)
     "c05_source": {"sources": ["pyjelly/serialize/lookup.py", "pyjelly/parse/lookup.py"], "unit": "lookup_enc", "gen": "LookupEncGen", "tie": "C05Source",
                    "needs": ["lookup_enc", "lookup_dec"], "props": ["C05"], "theorems": ["C05_source_mirror_all_histories"]},
